@@ -1,6 +1,11 @@
 package c_bn254
 
 import (
+	"runtime"
+	"strings"
+
+	"github.com/consensys/gnark/verifhook"
+
 	"crypto/sha256"
 	"encoding/hex"
 	"fmt"
@@ -202,6 +207,24 @@ func c10Stress(args common.Args, out *common.Out) error {
 			out.Emit(rec)
 		}
 	}
+	// ---------- A2. task-split boundaries: level sizes around 50*T for every task count T, with the
+	// solver's own scheduling events recorded (level size, task ranges) for validation against Solver.tla
+	splitRecs, err := taskSplitSweep(args)
+	if err != nil {
+		return err
+	}
+	for _, r := range splitRecs {
+		out.Emit(r)
+	}
+	// ---------- B2. many failing solves (the failing instruction sits in a parallel level), then a valid one
+	for _, builder := range []string{"r1cs", "scs"} {
+		out.Emit(manyFailuresThenValid(builder))
+	}
+	// ---------- B3. per-call hint closures (solver.WithHints) and a hint relying on initialised outputs
+	for _, builder := range []string{"r1cs", "scs"} {
+		out.Emit(hintClosureHistory(builder, nGo, rounds))
+		out.Emit(lazyHintHistory(builder, nGo, rounds))
+	}
 	// ---------- D. concurrent Prove / Verify sharing keys and an option slice with spare capacity
 	for _, name := range []string{"commit", "arith", "hint", "emul"} {
 		for _, be := range []string{"groth16", "plonk"} {
@@ -326,4 +349,258 @@ func stressProve(name, be string, nGo, rounds int) StressRec {
 		return fail("hang: concurrent Prove/Verify did not finish within 300s")
 	}
 	return rec
+}
+
+// SplitRec is the scheduling of one level as recorded through the verif hooks.
+type SplitRec struct {
+	Kind    string   `json:"kind"` // "split"
+	Circuit string   `json:"circuit"`
+	System  string   `json:"system"`
+	Detail  string   `json:"detail"`
+	OK      bool     `json:"ok"`
+	Err     string   `json:"err,omitempty"`
+	Runs    int      `json:"runs"`
+	Level   int      `json:"level"`   // len(level)
+	NbTasks int      `json:"nbTasks"` // configured number of tasks
+	Ranges  [][2]int `json:"ranges"`  // [start,end) pushed for the largest level; empty = sequential
+}
+
+var splitMu sync.Mutex
+
+func taskSplitSweep(args common.Args) ([]SplitRec, error) {
+	seed := args.Int("seed", 1)
+	tasks := []int{2, 3, 7, 16, 33, 52, 64, 100, 128, 512}
+	var recs []SplitRec
+	type lvl struct {
+		size   int
+		ranges [][2]int
+	}
+	for _, T := range tasks {
+		sizes := map[int]bool{}
+		for _, d := range []int{-1, 0, 1, 2, T - 1, T, T + 1, 2*T + 1} {
+			for _, base := range []int{50 * T, 51 * T, 49 * T} {
+				if n := base + d; n > 50 {
+					sizes[n] = true
+				}
+			}
+		}
+		// a few seeded sizes in the range where the split is not capped by the level size
+		for k := 0; k < 4; k++ {
+			sizes[51+((seed*7919+k*104729+T*31)%(60*T))] = true
+		}
+		for n := range sizes {
+			if n > 30000 {
+				continue
+			}
+			ccs, err := compileCorpus("wide", "r1cs", n)
+			if err != nil {
+				return nil, err
+			}
+			w, err := corpusWitness("wide", 1, n)
+			if err != nil {
+				return nil, err
+			}
+			ref, err := solveSafely(ccs, w, solver.WithNbTasks(1))
+			if err != nil {
+				return nil, fmt.Errorf("reference solve wide(%d): %w", n, err)
+			}
+			// record the scheduling events of this solve
+			splitMu.Lock()
+			var levels []lvl
+			verifhook.SolverEventFn = func(_ any, kind int, a, b int) {
+				switch kind {
+				case verifhook.EvLevel:
+					levels = append(levels, lvl{size: a})
+				case verifhook.EvTaskPush:
+					if len(levels) > 0 {
+						levels[len(levels)-1].ranges = append(levels[len(levels)-1].ranges, [2]int{a, b})
+					}
+				}
+			}
+			d, err := solveSafely(ccs, w, solver.WithNbTasks(T))
+			verifhook.SolverEventFn = nil
+			splitMu.Unlock()
+			rec := SplitRec{Kind: "split", Circuit: fmt.Sprintf("wide(%d)", n), System: "r1cs", Detail: fmt.Sprintf("nbTasks=%d", T),
+				OK: err == nil && d == ref, Runs: 1, NbTasks: T, Ranges: [][2]int{}}
+			if err != nil {
+				rec.Err = err.Error()
+			} else if d != ref {
+				rec.Err = "solution differs from the single-task solution"
+			}
+			for _, l := range levels {
+				if l.size > rec.Level {
+					rec.Level = l.size
+					rec.Ranges = l.ranges
+					if rec.Ranges == nil {
+						rec.Ranges = [][2]int{}
+					}
+				}
+			}
+			recs = append(recs, rec)
+		}
+	}
+	return recs, nil
+}
+
+func manyFailuresThenValid(builder string) StressRec {
+	rec := StressRec{Kind: "history", Circuit: "wide2", System: builder, OK: true,
+		Detail: "3*NumCPU solves failing inside a parallel level (nbTasks default and 4), then a valid solve"}
+	const n = 400
+	ccs, err := compileCorpus("wide2", builder, n)
+	if err != nil {
+		rec.OK, rec.Err = false, "INFRA compile: "+err.Error()
+		return rec
+	}
+	good, _ := corpusWitness("wide2", 0, n)
+	ref, err := solveSafely(ccs, good, solver.WithNbTasks(1))
+	if err != nil {
+		rec.OK, rec.Err = false, "INFRA reference solve: "+err.Error()
+		return rec
+	}
+	bad := circuits.AssignCorpusN("wide2", 0, field(), n)
+	// S0 + 311 == P1: instruction 311 of the wide level fails
+	bad.P[1] = new(big.Int).Add(bad.S[0].(*big.Int), big.NewInt(311))
+	wbad, _ := frontend.NewWitness(bad, field())
+	fails := 3 * runtime.NumCPU()
+	for i := 0; i < fails; i++ {
+		var opts []solver.Option
+		if i%2 == 1 {
+			opts = append(opts, solver.WithNbTasks(4))
+		}
+		if _, err := solveSafely(ccs, wbad, opts...); err == nil {
+			rec.OK, rec.Err = false, "invalid witness solved"
+			return rec
+		} else if strings.HasPrefix(err.Error(), "hang") || strings.HasPrefix(err.Error(), "panic") {
+			rec.OK, rec.Err = false, err.Error()
+			return rec
+		}
+		rec.Runs++
+	}
+	for _, nt := range []int{0, 4, 16} {
+		var opts []solver.Option
+		if nt > 0 {
+			opts = append(opts, solver.WithNbTasks(nt))
+		}
+		d, err := solveSafelyT(30*time.Second, ccs, good, opts...)
+		rec.Runs++
+		if err != nil {
+			rec.OK, rec.Err = false, "valid solve after failures: "+err.Error()
+			return rec
+		}
+		if d != ref {
+			rec.OK, rec.Err = false, "valid solve after failures returns a different solution"
+			return rec
+		}
+	}
+	return rec
+}
+
+func hintClosureHistory(builder string, nGo, rounds int) StressRec {
+	rec := StressRec{Kind: "history", Circuit: "hintdyn", System: builder, OK: true,
+		Detail: "every Solve passes its own closure for the same hint id through solver.WithHints: sequentially, then concurrently"}
+	ccs, err := compileCorpus("hintdyn", builder, 0)
+	if err != nil {
+		rec.OK, rec.Err = false, "INFRA compile: "+err.Error()
+		return rec
+	}
+	solveK := func(k int) error {
+		w, err := corpusWitness("hintdyn", k, 0)
+		if err != nil {
+			return err
+		}
+		_, err = solveSafely(ccs, w, solver.WithHints(circuits.DynHint(int64(k+1))))
+		return err
+	}
+	for k := 0; k < 6; k++ {
+		rec.Runs++
+		if err := solveK(k); err != nil {
+			rec.OK, rec.Err = false, fmt.Sprintf("sequential solve #%d with its own hint closure: %v", k, err)
+			return rec
+		}
+	}
+	// a solve that passes no closure must still fail with the missing-hint error, not reuse someone else's
+	w0, _ := corpusWitness("hintdyn", 0, 0)
+	if _, err := solveSafely(ccs, w0); err == nil {
+		rec.OK, rec.Err = false, "solve without any hint function succeeded after earlier solves registered closures"
+		return rec
+	}
+	var mu sync.Mutex
+	var wg sync.WaitGroup
+	for g := 0; g < nGo; g++ {
+		wg.Add(1)
+		go func(g int) {
+			defer wg.Done()
+			for r := 0; r < rounds; r++ {
+				if err := solveK(g); err != nil {
+					mu.Lock()
+					rec.OK, rec.Err = false, fmt.Sprintf("concurrent solve with its own hint closure: %v", err)
+					mu.Unlock()
+				}
+			}
+		}(g)
+	}
+	wg.Wait()
+	rec.Runs += nGo * rounds
+	return rec
+}
+
+func lazyHintHistory(builder string, nGo, rounds int) StressRec {
+	rec := StressRec{Kind: "history", Circuit: "hintlazy", System: builder, OK: true,
+		Detail: "a hint that leaves its initialised output untouched for input 0, after and during solves that fill the pool with other values"}
+	ccs, err := compileCorpus("hintlazy", builder, 0)
+	if err != nil {
+		rec.OK, rec.Err = false, "INFRA compile: "+err.Error()
+		return rec
+	}
+	run := func(k int) error {
+		w, err := corpusWitness("hintlazy", k, 0)
+		if err != nil {
+			return err
+		}
+		_, err = solveSafely(ccs, w)
+		return err
+	}
+	for k := 0; k < 12; k++ { // even: non-zero input, odd: zero input
+		rec.Runs++
+		if err := run(k); err != nil {
+			rec.OK, rec.Err = false, fmt.Sprintf("sequential solve #%d: %v", k, err)
+			return rec
+		}
+	}
+	var mu sync.Mutex
+	var wg sync.WaitGroup
+	for g := 0; g < nGo; g++ {
+		wg.Add(1)
+		go func(g int) {
+			defer wg.Done()
+			for r := 0; r < rounds; r++ {
+				if err := run(g + r); err != nil {
+					mu.Lock()
+					rec.OK, rec.Err = false, fmt.Sprintf("concurrent solve: %v", err)
+					mu.Unlock()
+				}
+			}
+		}(g)
+	}
+	wg.Wait()
+	rec.Runs += nGo * rounds
+	return rec
+}
+
+func solveSafelyT(d time.Duration, ccs constraint.ConstraintSystem, w witness.Witness, opts ...solver.Option) (string, error) {
+	type r struct {
+		d   string
+		err error
+	}
+	ch := make(chan r, 1)
+	go func() {
+		x, e := solveSafely(ccs, w, opts...)
+		ch <- r{x, e}
+	}()
+	select {
+	case x := <-ch:
+		return x.d, x.err
+	case <-time.After(d):
+		return "", fmt.Errorf("hang: Solve did not return within %s", d)
+	}
 }
